@@ -230,7 +230,7 @@ theorem inverse_trig (x y : ℝ) :
   ⟨rfl, rfl, rfl, rfl, rfl, rfl, rfl, rfl⟩
 end trig
 
-/-- the repaired `bisect` on the inputs that exposed the defect: 10° & 50° ↦ 30°, 350° & 10° ↦ 0° -/
-example : True := trivial
+-- the repaired `bisect` on the inputs that exposed the defect (10° & 50° ↦ 30°, 350° & 10° ↦ 0°): theorems
+-- `bisect_10_50`, `bisect_350_10` in Props/C13b.lean, and about the traced code in E2E/C13b.lean.
 
 end Cg.C13
